@@ -1335,7 +1335,10 @@ static bool _process_send(Device *dev, Action *act, ExecCtx *e)
                                  dev->name, memstr);
                 xfree(memstr);
             }
-            assert(written < 0 || (dropped == strlen(str) - written));
+            /* dev->to wraps (CBUF_WRAP_MANY): cbuf_write always takes the whole
+             * string and reports in 'dropped' how many of the oldest unsent
+             * bytes it overwrote (e.g. telnet option replies to a peer that
+             * has stopped reading).  That is reported above, not fatal. */
         }
 
         e->processing = true;
